@@ -3,6 +3,10 @@
 package mailbox
 
 import (
+	"context"
+	"net"
+	"time"
+
 	"github.com/lightninglabs/lightning-node-connect/hashmailrpc"
 )
 
@@ -25,4 +29,89 @@ func VerifUnmarshalCipherBox(unwrapped []byte) ([]byte, error) {
 	}
 
 	return mailboxMsg.Msg, nil
+}
+
+// VerifSetScryptN replaces the scrypt cost parameter (a power of two greater
+// than one) and returns the previous value. Bulk enumeration of handshakes
+// lowers it; the key derivation is otherwise unchanged.
+func VerifSetScryptN(n int) int {
+	old := scryptN
+	scryptN = n
+
+	return old
+}
+
+// VerifCipherState is a copy of the observable state of one cipherState.
+type VerifCipherState struct {
+	Key   [32]byte
+	Salt  [32]byte
+	Nonce uint64
+	Ready bool
+}
+
+func verifCipher(c *cipherState) VerifCipherState {
+	return VerifCipherState{
+		Key: c.secretKey, Salt: c.salt, Nonce: c.nonce,
+		Ready: c.cipher != nil,
+	}
+}
+
+// VerifSend returns the state of the sending cipher.
+func (b *Machine) VerifSend() VerifCipherState { return verifCipher(&b.sendCipher) }
+
+// VerifRecv returns the state of the receiving cipher.
+func (b *Machine) VerifRecv() VerifCipherState { return verifCipher(&b.recvCipher) }
+
+// VerifVersion returns the handshake version the machine currently holds.
+func (b *Machine) VerifVersion() byte { return b.version }
+
+// VerifRemoteStatic returns the peer's static key as learned / expected.
+func (b *Machine) VerifRemoteStatic() []byte {
+	if b.remoteStatic == nil {
+		return nil
+	}
+
+	return b.remoteStatic.SerializeCompressed()
+}
+
+// VerifReceivedPayload returns the payload received in act two.
+func (b *Machine) VerifReceivedPayload() []byte { return b.receivedPayload }
+
+// VerifPending returns the number of header and body bytes of the pending
+// record that have not been flushed yet.
+func (b *Machine) VerifPending() (int, int) {
+	return len(b.nextHeaderSend), len(b.nextBodySend)
+}
+
+// VerifKeyRotationInterval exposes keyRotationInterval.
+const VerifKeyRotationInterval = keyRotationInterval
+
+// VerifNewNoiseConn builds a NoiseConn from an established connection and a
+// machine that has completed its handshake.
+func VerifNewNoiseConn(conn net.Conn, noise *Machine) *NoiseConn {
+	return &NoiseConn{conn: conn, noise: noise}
+}
+
+// VerifControlConn mirrors the unexported controlConn interface.
+type VerifControlConn interface {
+	ReceiveControlMsg(ControlMsg) error
+	SendControlMsg(ControlMsg) error
+	SetRecvTimeout(timeout time.Duration)
+	SetSendTimeout(timeout time.Duration)
+}
+
+// VerifConnKit gives access to the Read / Write implementation that the
+// mailbox connections inherit from connKit.
+type VerifConnKit struct {
+	*connKit
+}
+
+// VerifNewConnKit builds a connKit on top of the given control connection.
+func VerifNewConnKit(impl VerifControlConn, sid [64]byte) *VerifConnKit {
+	return &VerifConnKit{connKit: &connKit{
+		ctx:        context.Background(),
+		impl:       impl,
+		receiveSID: GetSID(sid, true),
+		sendSID:    GetSID(sid, false),
+	}}
 }
